@@ -128,7 +128,8 @@ def ParseOut.toR : ParseOut → R
 structure Reg where
   types : List (String × NamedT)
   customParse : String → JV → ParseOut
-  customParseLiteral : String → Lit → ParseOut
+  /-- `parse_literal(node, variables)`: the scalar's own function is handed the literal AND the coerced variables (`variables or {}`) -/
+  customParseLiteral : String → List (String × PV) → Lit → ParseOut
   /-- the scalar was given its OWN `parse_literal` (`ScalarType._parse_literal is not None`): then `value_from_ast` hands it
       every kind of literal, not only scalar ones -/
   customHasParseLiteral : String → Bool
@@ -343,33 +344,36 @@ mutual
     numbers keep their SOURCE TEXT, an enum value its name, lists and objects become lists and dicts (a dict comprehension:
     a repeated key keeps its first position and its last value), `null` is None. `none` = a `Variable` node inside, which has no
     `.value` (AttributeError). -/
-def untypedLiteral : Lit → Option PV
+def untypedLiteral (vars : Option (List (String × PV))) : Lit → Option PV
   | .null => some .none
   | .int n => some (.str (toString n))
   | .float t => some (.str t)
   | .str s => some (.str s)
   | .bool b => some (.bool b)
   | .enum name => some (.str name)
-  | .var _ => none
-  | .list items => (untypedLiteralL items).map .list
-  | .obj fields => (untypedLiteralF fields).map fun kvs => .dict (dictOfAssignments kvs)
-def untypedLiteralL : List Lit → Option (List PV)
+  | .var x =>
+    match vars with
+    | some vs => some ((lookupLast x vs).getD .none)        -- `(variables or {}).get(name)`: None when no value was provided (fix C06-H7)
+    | none => none                                           -- before that fix: no Variable branch, `node.value` raises AttributeError
+  | .list items => (untypedLiteralL vars items).map .list
+  | .obj fields => (untypedLiteralF vars fields).map fun kvs => .dict (dictOfAssignments kvs)
+def untypedLiteralL (vars : Option (List (String × PV))) : List Lit → Option (List PV)
   | [] => some []
   | x :: xs =>
-    match untypedLiteral x, untypedLiteralL xs with
+    match untypedLiteral vars x, untypedLiteralL vars xs with
     | some v, some vs => some (v :: vs)
     | _, _ => none
-def untypedLiteralF : List (String × Lit) → Option (List (String × PV))
+def untypedLiteralF (vars : Option (List (String × PV))) : List (String × Lit) → Option (List (String × PV))
   | [] => some []
   | (k, x) :: xs =>
-    match untypedLiteral x, untypedLiteralF xs with
+    match untypedLiteral vars x, untypedLiteralF vars xs with
     | some v, some vs => some ((k, v) :: vs)
     | _, _ => none
 end
 
 /-- `default_scalar(...)`: `parse_literal = lambda node, _: _untyped_literal(node)` -/
-def defaultScalarParseLiteral (_ : String) (l : Lit) : ParseOut :=
-  match untypedLiteral l with
+def defaultScalarParseLiteral (_ : String) (vars : List (String × PV)) (l : Lit) : ParseOut :=
+  match untypedLiteral (if standInLiteralSeesVariables then some vars else none) l with
   | some pv => .value pv
   | none => .refused      -- a Variable inside: AttributeError, which `ScalarType.parse_literal` turns into TypeError for a structured node
 
@@ -554,7 +558,7 @@ def extractInputObject (rec : Ty → Lit → R) (fields : List InField) (lkvs : 
   | .ok r => if allKnown fields lkvs then .ok (.dict (dictOfAssignments r)) else .error .coercion
 
 /-- body of `value_from_ast` after the variable and non-null tests, on the stripped type -/
-def vfaCore (reg : Reg) (rec : Ty → Lit → R) (t : Ty) (l : Lit) : R :=
+def vfaCore (vars : Option (List (String × PV))) (reg : Reg) (rec : Ty → Lit → R) (t : Ty) (l : Lit) : R :=
   if l.isNull then .ok .none
   else match t with
     | .list t' =>
@@ -577,7 +581,7 @@ def vfaCore (reg : Reg) (rec : Ty → Lit → R) (t : Ty) (l : Lit) : R :=
         match l with
         | .enum name => getValue vs name
         | _ => .error .coercion
-      | some .custom => if litAdmitted reg n l then (reg.customParseLiteral n l).toR else .error .coercion
+      | some .custom => if litAdmitted reg n l then (reg.customParseLiteral n (vars.getD []) l).toR else .error .coercion
       | some k => if isScalarLit l then parseLiteral k l else .error .coercion
       | none => .error .internal
     | .nonNull _ => .error .internal     -- raise TypeError("Invalid type for input coercion")
@@ -590,7 +594,7 @@ def valueFromAst (reg : Reg) (vars : Option (List (String × PV))) : Nat → Ty 
     | .var x => extractVariable vars ty x
     | _ =>
       if ty.isNonNull && l.isNull then .error .coercion
-      else vfaCore reg (valueFromAst reg vars fuel) (stripNN ty) l
+      else vfaCore vars reg (valueFromAst reg vars fuel) (stripNN ty) l
 
 /-! ### coerce_variable_values -/
 
